@@ -30,7 +30,9 @@ func main() {
 		}
 		t0 := time.Now()
 		n0 := o.N
-		f()
+		if pan := hlib.Recover(f); pan != "" {
+			o.Violate("section %s aborted by a panic: %s", name, pan)
+		}
 		o.Hist["section-lines:"+name] = o.N - n0
 		o.Hist["section-ms:"+name] = int(time.Since(t0).Milliseconds())
 		fmt.Fprintf(os.Stderr, "c19: section %-10s %6d lines %8.2fs\n", name, o.N-n0, time.Since(t0).Seconds())
